@@ -14,10 +14,10 @@ theorem pipeSpace_pos : ∀ i : Nat, 0 < (fun _ : Nat => pipeSpace) i := fun _ =
 
 /-- the rest `head` hands on is a proper suffix of the buffer -/
 theorem head_rest {cfg : Cfg} {url : Bytes → Bytes → Option UrlView} {buf : Bytes} :
-    (∀ rest es cl vmaj vmin m u, head cfg url buf = .ok rest es cl vmaj vmin m u → rest <:+ buf ∧ rest.length < buf.length) ∧
+    (∀ rest es cl vmaj vmin m u keep, head cfg url buf = .ok rest es cl vmaj vmin m u keep → rest <:+ buf ∧ rest.length < buf.length) ∧
     (∀ rest, head cfg url buf = .connect rest → rest <:+ buf ∧ rest.length < buf.length) := by
   constructor
-  · intro rest es cl vmaj vmin m u h
+  · intro rest es cl vmaj vmin m u keep h
     obtain ⟨_, hs, hr, _⟩ := head_ok_inv h
     subst hr
     exact ⟨parse_buf_suffix cfg.h1 buf, parse_accepted_shorter cfg.h1 buf hs⟩
@@ -36,7 +36,7 @@ theorem head_rest {cfg : Cfg} {url : Bytes → Bytes → Option UrlView} {buf : 
 
 /-- a positive `content_length` comes from a Content-Length entry -/
 theorem head_ok_cl_pos {cfg : Cfg} {url : Bytes → Bytes → Option UrlView} {buf rest : Bytes} {es : List Entry} {cl : Int}
-    {vmaj vmin : Nat} {m u : Bytes} (h : head cfg url buf = .ok rest es cl vmaj vmin m u) (hpos : cl > 0) :
+    {vmaj vmin : Nat} {m u : Bytes} {keep : Bool} (h : head cfg url buf = .ok rest es cl vmaj vmin m u keep) (hpos : cl > 0) :
     hasId es idContentLength = true := by
   obtain ⟨_, _, _, _, _, _, _, hr, _, rfl, hcl, _⟩ := head_ok_inv h
   cases hx : hasId hr.entries idContentLength with
@@ -68,8 +68,8 @@ theorem step_msg {cfg : Cfg} {url : Bytes → Bytes → Option UrlView} {buf r r
   · simp at h
   · simp at h
   · simp at h
-  · rename_i rest0 es cl vmaj vmin m u hh
-    obtain ⟨hsuf, hlt⟩ := head_rest.1 rest0 es cl vmaj vmin m u hh
+  · rename_i rest0 es cl vmaj vmin m u keep hh
+    obtain ⟨hsuf, hlt⟩ := head_rest.1 rest0 es cl vmaj vmin m u keep hh
     split at h
     · -- no body
       simp only [Step.msg.injEq] at h
@@ -123,8 +123,8 @@ theorem step_body_connect {cfg : Cfg} {url : Bytes → Bytes → Option UrlView}
     · simp at h
     · simp at h
     · simp at h
-    · rename_i rest0 es cl vmaj vmin m u hh
-      have hsuf := head_rest.1 rest0 es cl vmaj vmin m u hh
+    · rename_i rest0 es cl vmaj vmin m u keep hh
+      have hsuf := head_rest.1 rest0 es cl vmaj vmin m u keep hh
       split at h
       · simp at h
       · split at h
